@@ -361,7 +361,11 @@ struct ChunkFooter {
 /// For the canonical empty chunk to be `static`, its type must be `Sync`, which
 /// is the purpose of this wrapper type. This is safe because the empty chunk is
 /// immutable and never actually modified.
-#[repr(transparent)]
+///
+/// It is aligned to the chunk alignment, like the footer of every real chunk,
+/// so that zero-sized allocations served from it honor every supported minimum
+/// alignment.
+#[repr(C, align(16))]
 struct EmptyChunkFooter(ChunkFooter);
 
 unsafe impl Sync for EmptyChunkFooter {}
@@ -514,6 +518,7 @@ const FOOTER_SIZE: usize = mem::size_of::<ChunkFooter>();
 // compile time error if it is not the case
 const _FOOTER_ALIGN_ASSERTION: () = {
     assert!(mem::align_of::<ChunkFooter>() <= CHUNK_ALIGN);
+    assert!(mem::align_of::<EmptyChunkFooter>() >= CHUNK_ALIGN);
 };
 
 // Maximum typical overhead per allocation imposed by allocators.
